@@ -53,6 +53,7 @@ func runC01(w *World, r *Report) {
 	hrConcurrentAllowed(w, r, "R10")
 	hrProcessorCallsOnlyItsOperation(w, r, "R10")
 	hrSetInt64Stores(w, r, "R10")
+	hrMemoryStateOwnStore(w, r, "R10")
 	hrEveryMatchingEdgeFollowed(w, r, "R10")
 	hrCounterParsedAsDecimal(w, r, "R10")
 	r.Borrow(w, c11ClockKeepsMonotonicReading, map[string]string{"R4": "R10"})
